@@ -161,10 +161,28 @@ pub fn gen_packets(r: &mut Rng, thorough: bool, f: &mut dyn FnMut(u64, &Packet))
     }
 }
 pub fn gen_dec(r: &mut Rng, thorough: bool, cx: &mut Ctx) {
+    // the marked veteran-decoders case (see exec_dec)
+    emit_dec(cx, 12, &Packet { is_error: false, device_address: 0xbeef, data: vec![0, 12, 0, 7, 0xbe, 0xef, 2, 0, 0, 0, 1, 2, 3, 4] });
     gen_packets(r, thorough, &mut |k, p| emit_dec(cx, k, p));
 }
 pub fn exec_dec(case: &[u64]) -> L {
     let (p, _) = parse_packet(&case[1..]);
+    // marked case (a message event from 0xbeef with code 0xbeef): the decoders have a long life behind them in this process - 70000 rejections of each
+    // reason and 70000 acceptances before this decode (a pure function keeps nothing from them)
+    if case[0] == 12 && p.device_address == 0xbeef && p.data.len() == 14 && p.data[4] == 0xbe && p.data[5] == 0xef {
+        let mk = |d: Vec<u8>, err: bool| Packet { is_error: err, device_address: 3, data: d };
+        for i in 0..70000u32 {
+            let b = (i % 200) as u8 + 9;
+            let _ = crate::guarded(move || { let _ = decode(6, &mk(vec![0, 6, 0, 1, 2, b, 1], false)); });                       // unknown brightness tag
+            let _ = crate::guarded(move || { let _ = decode(14, &mk(vec![0, 14, 0, 1, 2, b], false)); });                        // unknown relay value
+            let _ = crate::guarded(move || { let _ = decode(12, &mk(vec![0, 12, 0, 1, 0, 2, b, 0, 0, 0, 1, 0, 0, 0], false)); }); // unknown message tag
+            let _ = crate::guarded(move || { let _ = decode(12, &mk(vec![0, 12, 0, 1, 0, 2, 3, 0, 0, 0, b, 0, 0, 0], false)); }); // non-boolean flag
+            let _ = crate::guarded(move || { let _ = decode(3, &mk(vec![0, 3, 0], false)); });                                    // wrong size
+            let _ = crate::guarded(move || { let _ = decode(3, &mk(vec![0, 3, 0, 1], true)); });                                  // error packet
+            let _ = crate::guarded(move || { let _ = decode(3, &mk(vec![0, 7, 0, 1], false)); });                                 // wrong code
+            let _ = crate::guarded(move || { let _ = decode(3, &mk(vec![0, 3, 0, 1], false)); });                                 // accepted
+        }
+    }
     let mut o = vec![];
     let d = decode(case[0], &p);
     if show_decode(&d, &mut o) {
